@@ -112,11 +112,37 @@ DenseDomain(net, name) ==
         IN  Cardinality(BondsBetween(net, name, a, b)) = 1
 
 (* --------------------------- exact values ------------------------------- *)
-\* the statement's value: sum over all assignments of all labels
-ZOf(net) == DenoteScalar(net)
-\* unnormalised marginal over the labels `out` (flat, C order)
-MargOf(net, out) == Denote(net, out)
+\* The statement's value: the sum over all assignments of all labels of the product of the entries.
+\* JointOf is the table of those products over the labels `labs` (every label of the network, flat,
+\* C order); it is LTensor!Denote(net, labs) with the index arithmetic hoisted out of the loop
+\* (the model C14_Exact checks JointOf = Denote on every small case).
+DimsOf(net, labs) == [k \in DOMAIN labs |-> DimOf(net, labs[k])]
+JointOf(net, labs) ==
+  LET L  == Len(labs)
+      ds == DimsOf(net, labs)
+      st == [k \in 1..L |-> ProdI(ds, k + 1, L)]
+      pm == [i \in DOMAIN net |-> [k \in DOMAIN net[i].inds |-> PosIn(labs, net[i].inds[k])]]
+      ts == [i \in DOMAIN net |-> [k \in DOMAIN net[i].inds |-> ProdI(net[i].shape, k + 1, Len(net[i].shape))]]
+  IN  [n \in 1..Size(ds) |->
+         LET dg == [k \in 1..L |-> ((n - 1) \div st[k]) % ds[k]] IN
+         ProdG(LAMBDA i : net[i].data[1 + SumI(LAMBDA k : dg[pm[i][k]] * ts[i][k], 1, Len(net[i].inds))],
+               1, Len(net))]
 GSum(v) == SumG(LAMBDA k : v[k], 1, Len(v))
+AllLabels(net) == SetToSeqL(NetLabels(net))
+ZOf(net) == GSum(JointOf(net, AllLabels(net)))
+\* marginal over the labels at positions pos (a sequence) of labs: flat, C order over those labels
+MargFromJoint(J, ds, pos) ==
+  LET sd == [k \in DOMAIN pos |-> ds[pos[k]]]
+      L  == Len(ds)
+      st == [k \in 1..L |-> ProdI(ds, k + 1, L)]
+      \* flat position, in the small table, of entry n of the joint table
+      fl == [n \in 1..Len(J) |-> 1 + SumI(LAMBDA k : (((n - 1) \div st[pos[k]]) % ds[pos[k]]) * ProdI(sd, k + 1, Len(sd)),
+                                             1, Len(pos))]
+  IN  [f \in 1..Size(sd) |-> SumG(LAMBDA n : IF fl[n] = f THEN J[n] ELSE GZero, 1, Len(J))]
+\* unnormalised marginal over the labels `out`
+MargOf(net, out) ==
+  LET labs == AllLabels(net) IN
+  MargFromJoint(JointOf(net, labs), DimsOf(net, labs), [k \in DOMAIN out |-> PosIn(labs, out[k])])
 \* rationals: reduced, positive denominator
 RECURSIVE Gcd(_, _)
 Gcd(a, b) == IF b = 0 THEN a ELSE Gcd(b, a % b)
@@ -137,12 +163,14 @@ Proportional(u, v) ==
   /\ (\A a \in DOMAIN u : u[a] = GZero) <=> (\A a \in DOMAIN v : v[a] = GZero)
 
 \* 2-norm flavours: amplitudes over the outer labels `out`, norm, marginal of one outer label
-AmpOf(net, out) == Denote(net, out)
-Norm2Of(net, out) == LET a == AmpOf(net, out) IN SumI(LAMBDA k : GAbs2(a[k]), 1, Len(a))
-ProbMargOf(net, out, p) ==      \* p : position in out; result: sequence over the values of out[p]
-  LET a  == AmpOf(net, out)
-      ds == [k \in DOMAIN out |-> DimOf(net, out[k])]
-  IN  [v \in 1..ds[p] |-> SumI(LAMBDA n : IF Digit(n - 1, ds, p) = v - 1 THEN GAbs2(a[n]) ELSE 0, 1, Len(a))]
+AmpOf(net, out) == MargOf(net, out)
+Norm2OfAmp(a) == SumI(LAMBDA k : GAbs2(a[k]), 1, Len(a))
+Norm2Of(net, out) == Norm2OfAmp(AmpOf(net, out))
+\* probabilities of the values of the outer label at position p of out (unnormalised)
+ProbMargFromAmp(a, ds, p) ==
+  LET st == ProdI(ds, p + 1, Len(ds)) IN
+  [v \in 1..ds[p] |-> SumI(LAMBDA n : IF (((n - 1) \div st) % ds[p]) = v - 1 THEN GAbs2(a[n]) ELSE 0, 1, Len(a))]
+ProbMargOf(net, out, p) == ProbMargFromAmp(AmpOf(net, out), DimsOf(net, out), p)
 \* p[k] = <<num, den>> equals w[k] / sum(w) for integer weights w
 RatVecMatchesI(p, w) ==
   LET s == SumI(LAMBDA k : w[k], 1, Len(w)) IN
@@ -156,7 +184,7 @@ ExactMsg(net, name, E, a, b, x) ==
   LET behind == Closure(E \ {{a, b}}, {a})
       sub == SubNet(net, TensorsOf(net, name, behind))
   IN  IF Len(sub) = 0 THEN [v \in 1..DimOf(net, x) |-> GOne]
-      ELSE Denote([i \in DOMAIN sub |-> sub[i].t], <<x>>)
+      ELSE MargOf([i \in DOMAIN sub |-> sub[i].t], <<x>>)
 
 \* JSON helpers
 SeqToSet(s) == {s[k] : k \in DOMAIN s}
